@@ -24,7 +24,7 @@ class _Names:
     def SINK(self) -> str:
         def find():
             cls = facts().cls(MQ)
-            for fi in cls.methods.values():
+            for fi in cls.all_methods():
                 for n in ast.walk(fi.node):
                     if isinstance(n, ast.Attribute) and isinstance(n.ctx, ast.Store) and n.attr == "matched_type" and isinstance(n.value, ast.Name) and n.value.id != "self":
                         return fi.name
@@ -36,7 +36,7 @@ class _Names:
     def CHANGE_DIALECT(self) -> str:
         def find():
             cls = facts().cls(MQ)
-            for fi in cls.methods.values():
+            for fi in cls.all_methods():
                 if fi.name in ("__init__", "reset"):
                     continue
                 for n in ast.walk(fi.node):
@@ -49,44 +49,51 @@ class _Names:
         def find():
             cls = facts().cls(MQ)
             sink = self.SINK
-            for fi in cls.methods.values():
-                sinks_ds = False
+            ds_match = None
+            for fi in cls.all_methods():
                 for n in ast.walk(fi.node):
                     if isinstance(n, ast.Call) and isinstance(n.func, ast.Attribute) and n.func.attr == sink and len(n.args) >= 2 \
                             and isinstance(n.args[1], ast.Constant) and n.args[1].value == "DocStringSeparator":
-                        sinks_ds = True
-                if not sinks_ds:
-                    continue
-                none_attrs, zero_attrs = [], []
+                        ds_match = ds_match or fi.name
+            # the delimiter state, by how it is written anywhere in the class (directly or through helpers): one attribute is
+            # bound to None and to a computed value (the active delimiter), one to 0 and to a computed value (its indentation)
+            writes: dict = {}
+            per_fn: dict = {}
+            for fi in cls.all_methods():
+                selfname = fi.params()[0] if fi.params() else None
                 for n in ast.walk(fi.node):
-                    if isinstance(n, ast.Assign) and len(n.targets) == 1 and isinstance(n.targets[0], ast.Attribute) and isinstance(n.targets[0].value, ast.Name) \
-                            and n.targets[0].value.id == "self" and isinstance(n.value, ast.Constant):
-                        if n.value.value is None:
-                            none_attrs.append(n.targets[0].attr)
-                        elif n.value.value == 0 and not isinstance(n.value.value, bool):
-                            zero_attrs.append(n.targets[0].attr)
-                if len(set(none_attrs)) == 1:
-                    active = none_attrs[0]
-                    indent = zero_attrs[0] if len(set(zero_attrs)) == 1 else None
-                    if indent is None:
-                        # the clearing write may have been removed: fall back to the attribute reset() sets to 0
-                        r = cls.find_method("reset")
-                        for n in ast.walk(r.node) if r else []:
-                            if isinstance(n, ast.Assign) and isinstance(n.targets[0], ast.Attribute) and isinstance(n.value, ast.Constant) and n.value.value == 0 \
-                                    and not isinstance(n.value.value, bool):
-                                indent = n.targets[0].attr
-                    return (fi.name, active, indent or "_indent_to_remove")
-            # fall back to reset(): attribute set to None / 0
-            r = cls.find_method("reset")
-            act = ind = None
-            for n in ast.walk(r.node) if r else []:
-                if isinstance(n, ast.Assign) and isinstance(n.targets[0], ast.Attribute) and isinstance(n.value, ast.Constant):
-                    if n.value.value is None:
-                        act = n.targets[0].attr
-                    elif n.value.value == 0 and not isinstance(n.value.value, bool):
-                        ind = n.targets[0].attr
-            if act and ind:
-                return ("_match_DocStringSeparator", act, ind)
+                    tgts = []
+                    if isinstance(n, ast.Assign):
+                        tgts = [(t, n.value) for t in n.targets]
+                    elif isinstance(n, ast.AnnAssign) and n.value is not None:
+                        tgts = [(n.target, n.value)]
+                    for t, v in tgts:
+                        if isinstance(t, ast.Attribute) and isinstance(t.value, ast.Name) and t.value.id == selfname:
+                            kind = "other"
+                            if isinstance(v, ast.Constant) and v.value is None:
+                                kind = "none"
+                            elif isinstance(v, ast.Constant) and v.value == 0 and not isinstance(v.value, bool):
+                                kind = "zero"
+                            writes.setdefault(t.attr, set()).add(kind)
+                            per_fn.setdefault(fi.name, set()).add(t.attr)
+            act = [a for a, ks in writes.items() if "none" in ks and "other" in ks and "zero" not in ks]
+            ind = [a for a, ks in writes.items() if "zero" in ks and "other" in ks and "none" not in ks]
+            if len(act) != 1:
+                act = [a for a, ks in writes.items() if "none" in ks and "zero" not in ks] if not act else act
+            if len(ind) != 1:
+                ind = [a for a, ks in writes.items() if "zero" in ks and "none" not in ks] if not ind else ind
+            if len(act) > 1 or len(ind) > 1:
+                # the two fields are set together (open / close / reset): the pair written by the most functions in common
+                best = None
+                for a in act:
+                    for i in ind:
+                        k = sum(1 for ws in per_fn.values() if a in ws and i in ws)
+                        if k and (best is None or k > best[0]):
+                            best = (k, a, i)
+                if best:
+                    act, ind = [best[1]], [best[2]]
+            if len(act) == 1 and len(ind) == 1:
+                return (ds_match or "_match_DocStringSeparator", act[0], ind[0])
             raise AnalysisError("anchor vanished: doc string delimiter state of the token matcher not found")
         return self._get("DS", find)
 
@@ -151,14 +158,14 @@ class _Names:
                         trimmed = a
             if trimmed is None:
                 # by use: the attribute the prefix test reads (what it holds is then checked by the line rules, not assumed)
-                sw = cls.find_method("startswith")
+                sw = cls.find_method(self.line_helper("prefix") or "startswith")
                 for n in ast.walk(sw.node) if sw is not None else []:
                     if isinstance(n, ast.Call) and isinstance(n.func, ast.Attribute) and n.func.attr == "startswith" \
                             and isinstance(n.func.value, ast.Attribute) and isinstance(n.func.value.value, ast.Name) and n.func.value.value.id == sw.params()[0]:
                         trimmed = n.func.value.attr
             if lineno is None:
                 # by use: the attribute reported as the 'line' of a location built by this class
-                for mfi in cls.methods.values():
+                for mfi in cls.all_methods():
                     for n in ast.walk(mfi.node):
                         if isinstance(n, ast.Dict):
                             for k, v in zip(n.keys, n.values):
@@ -197,12 +204,269 @@ class _Names:
     def FMT_TOKENS(self) -> str:
         def find():
             cls = facts().cls("gherkin.token_formatter_builder.TokenFormatterBuilder")
-            b = cls.methods.get("build")
+            b = cls.find_method("build")
             for n in ast.walk(b.node) if b else []:
                 if isinstance(n, ast.Call) and isinstance(n.func, ast.Attribute) and n.func.attr == "append" and isinstance(n.func.value, ast.Attribute):
                     return n.func.value.attr
             return "_tokens"
         return self._get("FMT_TOKENS", find)
+
+
+    # ---- AstBuilder -------------------------------------------------------------------------------
+    BQ = "gherkin.ast_builder.AstBuilder"
+
+    @property
+    def TRANSFORM(self) -> str:
+        """The per-rule transformation: the AstBuilder method end_rule applies to the node it pops (found by use; when that
+        fails, the method that tests the node's rule type against the most grammar rule names)."""
+        def find():
+            cls = facts().cls(self.BQ)
+            er = cls.find_method("end_rule")
+            own = {m.name for c in cls.mro() for m in c.methods.values()}
+            if er is not None:
+                for n in ast.walk(er.node):
+                    # self.<current>.add(<type>, self.<transform>(node))
+                    if isinstance(n, ast.Call) and len(n.args) == 2 and isinstance(n.args[1], ast.Call) and isinstance(n.args[1].func, ast.Attribute) \
+                            and isinstance(n.args[1].func.value, ast.Name) and n.args[1].func.value.id == er.params()[0] and n.args[1].func.attr in own:
+                        return n.args[1].func.attr
+            best = None
+            for fi in cls.all_methods():
+                k = sum(1 for n in ast.walk(fi.node) if isinstance(n, ast.Compare) and any(isinstance(c, ast.Constant) and isinstance(c.value, str) and c.value[:1].isupper()
+                                                                                            for c in n.comparators))
+                if k >= 5 and (best is None or k > best[0]):
+                    best = (k, fi.name)
+            if best:
+                return best[1]
+            raise AnalysisError("anchor vanished: AstBuilder has no per-rule transformation applied by end_rule")
+        return self._get("TRANSFORM", find)
+
+    @property
+    def STACK(self) -> str:
+        """The open-node stack: the attribute reset() binds to a list holding the root AstNode."""
+        def find():
+            cls = facts().cls(self.BQ)
+            r = cls.find_method("reset")
+            for n in ast.walk(r.node) if r else []:
+                if isinstance(n, ast.Assign) and isinstance(n.targets[0], ast.Attribute) and isinstance(n.value, ast.List) and n.value.elts \
+                        and isinstance(n.value.elts[0], ast.Call):
+                    return n.targets[0].attr
+            # by use: the attribute start_rule appends to
+            sr = cls.find_method("start_rule")
+            for n in ast.walk(sr.node) if sr else []:
+                if isinstance(n, ast.Call) and isinstance(n.func, ast.Attribute) and n.func.attr == "append" and isinstance(n.func.value, ast.Attribute):
+                    return n.func.value.attr
+            raise AnalysisError("anchor vanished: AstBuilder keeps no stack of open nodes")
+        return self._get("STACK", find)
+
+    @property
+    def COMMENTS(self) -> str:
+        """The collected comments: the attribute build() appends a dictionary to."""
+        def find():
+            cls = facts().cls(self.BQ)
+            b = cls.find_method("build")
+            for n in ast.walk(b.node) if b else []:
+                if isinstance(n, ast.Call) and isinstance(n.func, ast.Attribute) and n.func.attr == "append" and isinstance(n.func.value, ast.Attribute) \
+                        and isinstance(n.func.value.value, ast.Name) and n.func.value.value.id == b.params()[0]:
+                    return n.func.value.attr
+            r = cls.find_method("reset")
+            for n in ast.walk(r.node) if r else []:
+                if isinstance(n, ast.Assign) and isinstance(n.targets[0], ast.Attribute) and isinstance(n.value, ast.List) and not n.value.elts:
+                    return n.targets[0].attr
+            raise AnalysisError("anchor vanished: AstBuilder collects no comments")
+        return self._get("COMMENTS", find)
+
+
+    # ---- GherkinLine helpers, found by how the token matcher uses them --------------------------------------
+    LQ = "gherkin.gherkin_line.GherkinLine"
+
+    def _line_uses(self):
+        """Calls / attribute reads on ``<token>.line`` in the base token matcher: [(matcher method, member, call node or None)]."""
+        def find():
+            cls = facts().cls(MQ)
+            members = {m for c in facts().cls(self.LQ).mro() for m in c.methods}
+            out = []
+            for fi in cls.all_methods():
+                aliases = set()
+                for n in ast.walk(fi.node):
+                    if isinstance(n, ast.Assign) and len(n.targets) == 1 and isinstance(n.targets[0], ast.Name) and isinstance(n.value, ast.Attribute) \
+                            and n.value.attr == "line":
+                        aliases.add(n.targets[0].id)
+                on_line = lambda e: (isinstance(e, ast.Attribute) and e.attr == "line") or (isinstance(e, ast.Name) and e.id in aliases)
+                calls = set()
+                for n in ast.walk(fi.node):
+                    if isinstance(n, ast.Call) and isinstance(n.func, ast.Attribute) and on_line(n.func.value):
+                        out.append((fi, n.func.attr, n))
+                        calls.add(id(n.func))
+                for n in ast.walk(fi.node):
+                    if isinstance(n, ast.Attribute) and id(n) not in calls and on_line(n.value) and isinstance(n.ctx, ast.Load):
+                        out.append((fi, n.attr, None))
+            return out
+        return self._get("LINE_USES", find)
+
+    def line_helper(self, role: str):
+        """Name of the GherkinLine member playing ``role`` for the token matcher, or None when the matcher does without it:
+        empty / rest / text / prefix / title_prefix (methods), indent / cells / tags (attributes or properties)."""
+        def find():
+            sink = self.SINK
+            uses = self._line_uses()
+            r = {}
+            for fi, member, call in uses:
+                if call is not None:
+                    a = call.args
+                    if fi.name == "match_Empty" and not a and not call.keywords:
+                        r.setdefault("empty", member)
+                    if len(a) == 1 and any(isinstance(x, ast.Call) and isinstance(x.func, ast.Name) and x.func.id == "len" for x in ast.walk(a[0])):
+                        r.setdefault("rest", member)
+                    if fi.name == "match_Other" or (len(a) == 1 and isinstance(a[0], ast.Attribute) and a[0].attr == self.DS_INDENT):
+                        r.setdefault("text", member)
+                    if len(a) == 1 and isinstance(a[0], ast.Constant) and isinstance(a[0].value, str) and fi.name in ("match_TagLine", "match_TableRow", "match_Comment"):
+                        r.setdefault("prefix", member)
+                else:
+                    if fi.name == sink:
+                        r.setdefault("indent", member)
+            for fi, member, call in uses:
+                if call is not None and len(call.args) == 1 and isinstance(call.args[0], ast.Name) and member not in (r.get("prefix"), r.get("rest"), r.get("text")) \
+                        and fi.name not in ("match_StepLine",):
+                    r.setdefault("title_prefix", member)
+            # items= of the matched-token sink per kind
+            cls = facts().cls(MQ)
+            for fi in cls.all_methods():
+                for n in ast.walk(fi.node):
+                    if isinstance(n, ast.Call) and isinstance(n.func, ast.Attribute) and n.func.attr == sink and len(n.args) >= 2 and isinstance(n.args[1], ast.Constant):
+                        for k in n.keywords:
+                            if k.arg == "items" and isinstance(k.value, ast.Attribute):
+                                if n.args[1].value == "TableRow":
+                                    r.setdefault("cells", k.value.attr)
+                                elif n.args[1].value == "TagLine":
+                                    r.setdefault("tags", k.value.attr)
+            return r
+        return self._get("LINE_HELPERS", find).get(role)
+
+    @property
+    def INDENT(self) -> str:
+        return self.line_helper("indent") or "indent"
+
+    @property
+    def SPLITTER_Q(self) -> str:
+        """Qualified name of the cell splitter: the generator function that cuts a table row into cells - a method of
+        GherkinLine, a function bound on the class with staticmethod(...), or a module function the cells property calls."""
+        def find():
+            from .astutil import walk_no_nested_defs
+            f = facts()
+            cls = f.cls(self.LQ)
+            is_gen = lambda fi: any(isinstance(x, (ast.Yield, ast.YieldFrom)) for x in walk_no_nested_defs(fi.node))
+            gens = [fi.qualname for fi in cls.all_methods() if is_gen(fi)]
+            for c in cls.mro():
+                for nm, v in c.class_attrs.items():
+                    if isinstance(v, ast.Call) and isinstance(v.func, ast.Name) and v.func.id == "staticmethod" and len(v.args) == 1 and isinstance(v.args[0], ast.Name):
+                        r = f.resolve_name(c.module, v.args[0].id)
+                        if r is not None and r[0] == "func" and is_gen(r[1]):
+                            gens.append(r[1].qualname)
+            if not gens:
+                tc = cls.find_method(self.TABLE_CELLS)
+                for n in ast.walk(tc.node) if tc is not None else []:
+                    if isinstance(n, ast.Call) and isinstance(n.func, ast.Name):
+                        r = f.resolve_name(cls.module, n.func.id)
+                        if r is not None and r[0] == "func" and is_gen(r[1]):
+                            gens.append(r[1].qualname)
+            gens = sorted(set(gens))
+            if len(gens) > 1:
+                # several generators: the splitter is the one the cells property uses
+                tc = cls.find_method(self.TABLE_CELLS)
+                used = {n.attr for n in ast.walk(tc.node) if isinstance(n, ast.Attribute)} | {n.id for n in ast.walk(tc.node) if isinstance(n, ast.Name)} if tc else set()
+                pick = [g for g in gens if g.rsplit(".", 1)[1] in used]
+                if len(pick) == 1:
+                    return pick[0]
+            if len(gens) == 1:
+                return gens[0]
+            raise AnalysisError("anchor vanished: no single generator function splitting a table row into cells")
+        return self._get("SPLITTER_Q", find)
+
+    @property
+    def TABLE_CELLS(self) -> str:
+        return self.line_helper("cells") or "table_cells"
+
+    @property
+    def TAGS(self) -> str:
+        return self.line_helper("tags") or "tags"
+
+
+    # ---- the hand-written frame of the parser (found by what the members do; the generated state methods keep their names) ----
+    PQ = "gherkin.parser.Parser"
+
+    def _parser_roles(self):
+        def find():
+            cls = facts().cls(self.PQ)
+            r = {}
+            for fi in cls.all_methods():
+                if fi.name.startswith("match_token_at_") or fi.name in ("parse", "__init__"):
+                    continue
+                calls = [n for n in ast.walk(fi.node) if isinstance(n, ast.Call) and isinstance(n.func, ast.Attribute)]
+                raises = [n for n in ast.walk(fi.node) if isinstance(n, ast.Raise) and n.exc is not None]
+                names = {n.id for n in ast.walk(fi.node) if isinstance(n, ast.Name)} | {n.attr for n in ast.walk(fi.node) if isinstance(n, ast.Attribute)}
+                # reads one token: asks the scanner (``<context>.<scanner>.read()``)
+                for c in calls:
+                    if c.func.attr == "read" and isinstance(c.func.value, ast.Attribute) and not c.args and not fi.name.startswith(("lookahead_", "match_")):
+                        r.setdefault("read_token", fi.name)
+                        r.setdefault("ctx_scanner", c.func.value.attr)
+                    if c.func.attr == "popleft" and isinstance(c.func.value, ast.Attribute) and not fi.name.startswith(("lookahead_", "match_")):
+                        r.setdefault("ctx_queue", c.func.value.attr)
+                # collects an error: raises the composite once the list is long enough
+                if any("CompositeParserException" in ast.unparse(x.exc) for x in raises) and not any(isinstance(n, ast.Try) for n in ast.walk(fi.node)):
+                    r.setdefault("add_error", fi.name)
+                    for c in calls:
+                        if c.func.attr == "append" and isinstance(c.func.value, ast.Attribute):
+                            r.setdefault("ctx_errors", c.func.value.attr)
+                # runs an action under the error policy: a try block whose handlers name the composite error
+                for n in ast.walk(fi.node):
+                    if isinstance(n, ast.Try) and any(h.type is not None and "CompositeParserException" in ast.unparse(h.type) for h in n.handlers):
+                        r.setdefault("handle_external_error", fi.name)
+                # dispatches on the state number (state, token, context)
+                if any(nm.startswith("match_token_at_") for nm in names) and len(fi.params()) >= 4:
+                    r.setdefault("match_token_by_shape", fi.name)
+            for fi in cls.all_methods():
+                if fi.name in r.values() or fi.name.startswith(("match_", "lookahead_")) or fi.name in ("parse", "__init__"):
+                    continue
+                for n in ast.walk(fi.node):
+                    if isinstance(n, ast.Call) and isinstance(n.func, ast.Attribute) and n.func.attr == r.get("handle_external_error") \
+                            and isinstance(n.func.value, ast.Name) and fi.params() and n.func.value.id == fi.params()[0]:
+                        r.setdefault("handle_ast_error", fi.name)
+            # the transition step, by use: ``state = self.<step>(state, token, context)`` in parse()
+            p0 = cls.find_method("parse")
+            for n in ast.walk(p0.node) if p0 else []:
+                if isinstance(n, ast.Assign) and len(n.targets) == 1 and isinstance(n.targets[0], ast.Name) and isinstance(n.value, ast.Call) \
+                        and isinstance(n.value.func, ast.Attribute) and isinstance(n.value.func.value, ast.Name) and n.value.func.value.id == p0.params()[0] \
+                        and n.value.args and isinstance(n.value.args[0], ast.Name) and n.value.args[0].id == n.targets[0].id:
+                    r.setdefault("match_token", n.value.func.attr)
+            if "match_token" not in r and "match_token_by_shape" in r:
+                r["match_token"] = r["match_token_by_shape"]
+            # the matcher of the context: the attribute whose match_<Kind> methods the parser's match_<Kind> wrappers pass on
+            for fi in cls.all_methods():
+                if fi.name.startswith("match_") and not fi.name.startswith("match_token"):
+                    for n in ast.walk(fi.node):
+                        if isinstance(n, ast.Attribute) and n.attr == fi.name and isinstance(n.value, ast.Attribute):
+                            r.setdefault("ctx_matcher", n.value.attr)
+            # when the error list is kept by a helper outside the class, it is still the list ``parse`` tests / raises from
+            if "ctx_errors" not in r:
+                p = cls.find_method("parse")
+                for n in ast.walk(p.node) if p else []:
+                    if isinstance(n, ast.Call) and "CompositeParserException" in ast.unparse(n.func) and n.args and isinstance(n.args[0], ast.Attribute):
+                        r.setdefault("ctx_errors", n.args[0].attr)
+            return r
+        return self._get("PARSER_ROLES", find)
+
+    def _role(self, key, default):
+        return self._parser_roles().get(key) or default
+
+    READ_TOKEN = property(lambda self: self._role("read_token", "read_token"))
+    MATCH_TOKEN = property(lambda self: self._role("match_token", "match_token"))
+    ADD_ERROR = property(lambda self: self._role("add_error", "add_error"))
+    HANDLE_EXTERNAL = property(lambda self: self._role("handle_external_error", "handle_external_error"))
+    HANDLE_AST = property(lambda self: self._role("handle_ast_error", "handle_ast_error"))
+    CTX_QUEUE = property(lambda self: self._role("ctx_queue", "token_queue"))
+    CTX_ERRORS = property(lambda self: self._role("ctx_errors", "errors"))
+    CTX_SCANNER = property(lambda self: self._role("ctx_scanner", "token_scanner"))
+    CTX_MATCHER = property(lambda self: self._role("ctx_matcher", "token_matcher"))
 
 
 N = _Names()
